@@ -239,7 +239,7 @@ def write_shard(pid, k, cfg, cases, mode):
 
 def eval_shard(path):
     t0 = time.time()
-    rc, out, err = sh(["coqc", "-noglob", "-Q", "theories", "RIO", "-Q", "gen", "RIOGen", path], 1500, cwd=COQ)
+    rc, out, err = sh(["coqc", "-noglob", "-Q", "theories", "RIO", "-Q", "gen", "RIOGen", path], int(os.environ.get("VERIF_SHARD_TIMEOUT", "420")), cwd=COQ)
     outp = path[:-2] + ".out"
     if rc != 0 or not os.path.exists(outp):
         return None, (out + err)[-2000:], time.time() - t0
